@@ -4,6 +4,9 @@ mod c17;
 mod c18;
 mod common;
 
+#[global_allocator]
+static ALLOC: c12::HandlerSafeAlloc = c12::HandlerSafeAlloc;
+
 fn main() {
     let raw: Vec<String> = std::env::args().collect();
     if raw.len() > 2 && raw[1] == "--child" {
